@@ -22,6 +22,11 @@ func vDrawMsgC(prevTs int64, epoch uint64) (*Message, vStored) {
 	k, knil := vField("key", kshape)
 	v := vNondetBytes("val", 1)
 	ts := vNondetInt64("ts")
+	if !vSymbolic() && (ts <= 0 || ts < prevTs) {
+		// native replay of a crash path that never drew this message: any
+		// admissible value will do (only the crash image is examined)
+		ts = prevTs + 1
+	}
 	vAssume(ts > 0)
 	vAssume(ts >= prevTs)
 	m := &Message{Key: k, Value: v, Timestamp: ts, LeaderEpoch: epoch, MagicByte: 2}
@@ -123,6 +128,23 @@ func vRecoverAndCheck(dir string, opts Options, e vCrashExpect) {
 	}
 	if newest >= 0 && seen[newest] {
 		vAssert(l.LastLeaderEpoch() <= e.attempted[newest].Epoch, "epoch history is not ahead of the newest message")
+	}
+	// every message present lies in the epoch the history gives for its offset:
+	// the entry with the largest start offset at or below it
+	for o := 0; o <= int(newest) && o < len(e.attempted); o++ {
+		if !seen[o] {
+			continue
+		}
+		var cover *epochOffset
+		for _, eo := range cl.leaderEpochCache.epochOffsets {
+			if eo.startOffset <= int64(o) && (cover == nil || eo.startOffset > cover.startOffset) {
+				cover = eo
+			}
+		}
+		vAssert(cover != nil, "the epoch history covers every message present")
+		if cover != nil {
+			vAssert(cover.leaderEpoch == e.attempted[o].Epoch, "the epoch history names the leader epoch of every message present")
+		}
 	}
 	// the log keeps working: the next append gets the next offset, exactly once
 	m, st := vDrawMsgC(0, 9)
